@@ -381,6 +381,21 @@ class Driver:
 
 
 def run_case(odfdo, case):
+    """Execute a case; a call that hits the alarm is retried once, whole case, with a ten times longer alarm (a loaded
+    machine must not produce an alarm; a genuine hang still does)"""
+    global CALL_TIMEOUT
+    res = run_case_once(odfdo, case)
+    if any(r['raised'] and 'CallTimeout' in r['raised'] for r in res.get('records', [])) or 'CallTimeout' in str(res.get('error')):
+        saved = CALL_TIMEOUT
+        CALL_TIMEOUT = saved * 10
+        try:
+            res = run_case_once(odfdo, case)
+        finally:
+            CALL_TIMEOUT = saved
+    return res
+
+
+def run_case_once(odfdo, case):
     """Execute a case on the implementation.  Returns dict(term=Coq term or None, steps=[...per-step record...], error=...)"""
     try:
         d = Driver(odfdo, case['init_xml'])
